@@ -23,6 +23,9 @@ type shadowPlugin struct {
 	// (C19 at the calcium level watches under which context a multi-lock section runs)
 	mu           sync.Mutex
 	slowCapacity time.Duration
+	// slowUsage: a usage update takes this long and does not look at its context (a party
+	// that finishes what it started)
+	slowUsage time.Duration
 	cancelledAt  []time.Time
 }
 
@@ -128,6 +131,12 @@ func (p *shadowPlugin) SetNodeResourceInfo(ctx context.Context, nodename string,
 func (p *shadowPlugin) SetNodeResourceUsage(ctx context.Context, nodename string, _ plugintypes.NodeResource, _ plugintypes.NodeResourceRequest, _ []plugintypes.WorkloadResource, _ bool, _ bool) (*plugintypes.SetNodeResourceUsageResponse, error) {
 	if err := p.step("SetNodeResourceUsage"); err != nil {
 		return nil, err
+	}
+	p.mu.Lock()
+	d := p.slowUsage
+	p.mu.Unlock()
+	if d > 0 {
+		time.Sleep(d)
 	}
 	return &plugintypes.SetNodeResourceUsageResponse{Before: plugintypes.NodeResource{}, After: plugintypes.NodeResource{}}, nil
 }
